@@ -33,6 +33,22 @@ type SearchOptions struct {
 	NoCrossPlatform bool     // Exclude cross-platform tools
 }
 
+// effectiveLimit replaces a non-positive limit by def and caps a limit larger than the
+// database at its size: no search can return more, and the cap keeps the Limit*k
+// buffer sizes computed below from overflowing for absurdly large limits.
+func (db *Database) effectiveLimit(limit, def int) int {
+	if limit <= 0 {
+		limit = def
+	}
+	if n := len(db.Commands); limit > n {
+		limit = n
+		if limit < 1 {
+			limit = 1
+		}
+	}
+	return limit
+}
+
 // Search performs a basic keyword-based search
 // Deprecated: Use SearchUniversal for better performance and accuracy
 func (db *Database) Search(query string, limit int) []SearchResult {
@@ -44,9 +60,7 @@ func (db *Database) Search(query string, limit int) []SearchResult {
 // SearchWithOptions performs search with advanced options including context awareness and platform filtering
 // Deprecated: Use SearchUniversal for better BM25F-based ranking and NLP integration
 func (db *Database) SearchWithOptions(query string, options SearchOptions) []SearchResult {
-	if options.Limit <= 0 {
-		options.Limit = constants.DefaultSearchLimit
-	}
+	options.Limit = db.effectiveLimit(options.Limit, constants.DefaultSearchLimit)
 
 	queryWords := strings.Fields(strings.ToLower(query))
 	results := make([]SearchResult, 0, utils.Min(len(db.Commands), options.Limit*constants.ResultsBufferMultiplier))
@@ -68,9 +82,7 @@ func (db *Database) SearchWithOptions(query string, options SearchOptions) []Sea
 // SearchWithPipelineOptions performs search with pipeline-specific enhancements
 // Deprecated: Use SearchUniversal with PipelineOnly=true and PipelineBoost options
 func (db *Database) SearchWithPipelineOptions(query string, options SearchOptions) []SearchResult {
-	if options.Limit <= 0 {
-		options.Limit = constants.DefaultSearchLimit
-	}
+	options.Limit = db.effectiveLimit(options.Limit, constants.DefaultSearchLimit)
 
 	queryWords := strings.Fields(strings.ToLower(query))
 	results := make([]SearchResult, 0, utils.Min(len(db.Commands), options.Limit*constants.ResultsBufferMultiplier))
@@ -498,9 +510,7 @@ func isDownloadTool(cmdLower string) bool {
 // SearchWithFuzzy performs hybrid search combining exact matching and fuzzy search
 // Deprecated: Use SearchUniversal with UseFuzzy=true option
 func (db *Database) SearchWithFuzzy(query string, options SearchOptions) []SearchResult {
-	if options.Limit <= 0 {
-		options.Limit = constants.DefaultSearchLimit
-	}
+	options.Limit = db.effectiveLimit(options.Limit, constants.DefaultSearchLimit)
 
 	// First try exact search
 	exactOptions := options
@@ -709,10 +719,8 @@ func isCommonWord(word string) bool {
 
 // SearchWithNLP performs natural language search with advanced query processing
 func (db *Database) SearchWithNLP(query string, options SearchOptions) []SearchResult {
-	if options.Limit <= 0 {
-		// like the other entry points; a negative limit would be used as a slice bound below
-		options.Limit = constants.DefaultSearchLimit
-	}
+	// like the other entry points; a negative limit would be used as a slice bound below
+	options.Limit = db.effectiveLimit(options.Limit, constants.DefaultSearchLimit)
 
 	if !options.UseNLP {
 		// Fall back to regular search if NLP is disabled
